@@ -112,6 +112,35 @@ mod verif_c15 {
         kani::cover!(true);
     }
 
+    // TryFrom<SafeLong> for the narrower / unsigned types: Ok exactly when the value fits, and then it is the value
+    macro_rules! try_into_harness {
+        ($name:ident, $t:ty) => {
+            #[kani::proof]
+            fn $name() {
+                let s: SafeLong = kani::any();
+                let fits = (s.0 as i128) >= (<$t>::MIN as i128) && (s.0 as i128) <= (<$t>::MAX as u128 as i128).max(if (<$t>::MAX as u128) > i128::MAX as u128 { i128::MAX } else { <$t>::MAX as i128 });
+                match <$t>::try_from(s) {
+                    Ok(v) => {
+                        assert!(fits);
+                        assert!(v as i128 == s.0 as i128);
+                    }
+                    Err(_) => assert!(!fits),
+                }
+                kani::cover!(fits);
+            }
+        };
+    }
+    try_into_harness!(try_into_u8, u8);
+    try_into_harness!(try_into_i8, i8);
+    try_into_harness!(try_into_u16, u16);
+    try_into_harness!(try_into_i16, i16);
+    try_into_harness!(try_into_u32, u32);
+    try_into_harness!(try_into_i32, i32);
+    try_into_harness!(try_into_u64, u64);
+    try_into_harness!(try_into_u128, u128);
+    try_into_harness!(try_into_usize, usize);
+    try_into_harness!(try_into_isize, isize);
+
     // ---- Deserialize: one scalar event of every serde kind, formatting-free error type -------------
     #[derive(Debug)]
     pub struct MockErr;
